@@ -121,7 +121,7 @@ pub fn check(c: &Case) -> Verdict {
     classes.sort();
     classes.dedup();
     let sample = serde_json::json!({"coin": coin.cli(), "verify": c.verify, "blocks": built.blocks.iter().map(|(h, b)| serde_json::json!({"height": h, "version": format!("{:#x}", b.version), "auxpow": b.auxpow.as_ref().map(|a| format!("cb-branch {} chain-branch {} parent-cb {}in/{}out{}", a.cb_branch.len(), a.chain_branch.len(), a.coinbase.inputs.len(), a.coinbase.outputs.len(), if a.coinbase.segwit {" segwit"} else {""}))})).collect::<Vec<_>>()});
-    Verdict::Pass(Pass { nontrivial, key: key_of(c), classes, known: vec![], sub_evals: sub, sample: Some(sample) })
+    Verdict::Pass(Pass { nontrivial, key: key_of(c), classes, known: vec![], sub_evals: sub, sample: Some(sample), extra_keys: vec![] })
 }
 
 fn run(eng: &Engine, a: &Args) {
